@@ -6,7 +6,11 @@ package sem
 
 import (
 	"encoding/binary"
+	"errors"
+	"fmt"
 	"math"
+
+	"semtest/ext"
 )
 
 func AddU8(a, b uint8) uint8       { return a + b }
@@ -184,4 +188,436 @@ func PutFromSelf(b []byte) int {
 	binary.BigEndian.PutUint16(b[2:], uint16(b[0])<<8|uint16(b[1]))
 	n := Store(b, 0, int16(b[3]))
 	return n
+}
+
+// ---------------------------------------------------------------------------------------------
+// phase 2: loops, recursion, pointer parameters, maps, struct variables, tables, abstract objects
+
+func SumTo(n int) int {
+	s := 0
+	for i := 0; i < n; i++ {
+		s += i
+	}
+	return s
+}
+
+func LoopBreak(b []byte) int {
+	i := 0
+	for {
+		if i >= len(b) {
+			break
+		}
+		if b[i] == 0 {
+			break
+		}
+		i++
+	}
+	return i
+}
+
+func LoopContinue(b []byte) int {
+	n := 0
+	for i := 0; i < len(b); i++ {
+		if b[i]&1 == 0 {
+			continue
+		}
+		n += int(b[i])
+	}
+	return n
+}
+
+func LoopReturn(b []byte, x byte) int {
+	for i := 0; i < len(b); i++ {
+		if b[i] == x {
+			return i
+		}
+	}
+	return -1
+}
+
+// a condition that can panic; a uint8 counter that wraps
+func LoopCondPanic(b []byte) int {
+	n := 0
+	for i := uint8(250); b[i] != 0; i++ {
+		n++
+	}
+	return n
+}
+
+func NestedLoops(n int) int {
+	s := 0
+	for i := 0; i < n; i++ {
+		for j := 0; j <= i; j++ {
+			if j == 3 {
+				continue
+			}
+			if i == 5 {
+				break
+			}
+			s += i*j + 1
+		}
+		if s > 60 {
+			return -s
+		}
+	}
+	return s
+}
+
+// an infinite loop that ends only by return; continue and return inside a switch
+func LoopSwitch(b []byte) (n int, ok bool) {
+	i := 0
+	for {
+		if i >= len(b) {
+			return
+		}
+		switch b[i] {
+		case 0:
+			i++
+			continue
+		case 1:
+			n++
+		case 2:
+			return n, true
+		case 3:
+			if n > 1 {
+				break
+			}
+			n += 10
+		default:
+			i += 2
+			continue
+		}
+		i++
+	}
+}
+
+// the same for statement reached along two paths
+func LoopTwoPaths(a int) int {
+	x := 0
+	if a > 2 {
+		x = a
+	}
+	for i := 0; i < 3; i++ {
+		x += i
+	}
+	return x
+}
+
+func SwitchBreak(a int) int {
+	switch a {
+	case 1:
+		if a > 0 {
+			break
+		}
+		a = 2
+	case 2:
+		a = 7
+	}
+	return a + 1
+}
+
+// a local slice made by make, stored into and read back
+func LoopStore(n int) int {
+	b := make([]byte, n)
+	for i := 0; i < n; i++ {
+		b[i] = byte(i * 3)
+	}
+	s := 0
+	for i := 0; i < len(b); i++ {
+		s += int(b[i]) * (i + 1)
+	}
+	return s
+}
+
+func Fact(n int) int {
+	if n <= 0 {
+		return 1
+	}
+	return n * Fact(n-1)
+}
+
+// recursion inside a loop
+func Tree(b []byte, pos int, maxdepth int) (int, int) {
+	if maxdepth == 0 {
+		return pos, -1
+	}
+	if pos >= len(b) {
+		return pos, -2
+	}
+	n := int(b[pos])
+	pos++
+	cnt := 1
+	for i := 0; i < n; i++ {
+		var c int
+		pos, c = Tree(b, pos, maxdepth-1)
+		if c < 0 {
+			return pos, c
+		}
+		cnt += c
+	}
+	return pos, cnt
+}
+
+func bump(p *int, k int) int {
+	*p += k
+	old := *p
+	*p = *p * 2
+	*p++
+	return old
+}
+
+func PtrUse(a int) int {
+	x := a
+	y := bump(&x, 3)
+	z := bump(&x, y)
+	return x*1000 + y + z
+}
+
+func PtrPass(p *int) int {
+	r := bump(p, 1)
+	return r + *p
+}
+
+func PtrLoop(p *int32, n int) {
+	for i := 0; i < n; i++ {
+		*p += *p
+	}
+}
+
+func fill(m map[uint16]string, k uint16, v string) { m[k] = v }
+
+func MapUse(a uint16, s string) string {
+	var m map[uint16]string
+	if m == nil {
+		m = make(map[uint16]string)
+	}
+	fill(m, a, s)
+	fill(m, 1, "one")
+	m[a] = m[a] + "!"
+	return m[1] + m[a] + m[99]
+}
+
+func MapNilStore(a int) int {
+	var m map[string]int
+	if a > 0 {
+		m = make(map[string]int, 4)
+	}
+	r := m["z"]
+	if a != -1 {
+		m["k"] = a
+	}
+	return m["k"] + r
+}
+
+func MapParamSet(m map[string]string, k, v string) string {
+	m[k] = v
+	return m["a"] + m[k]
+}
+
+func MapParamGet(m map[int8]int, k int8) int { return m[k] + m[-k] }
+
+type Pt struct {
+	X int
+	Y uint8
+	S string
+}
+
+func StructUse(a int) (p Pt, ok bool) {
+	p.X = a
+	p.Y = uint8(a)
+	if a < 0 {
+		return
+	}
+	p.S = "ok"
+	p.X += int(p.Y)
+	p.Y++
+	ok = p.S == "ok"
+	return
+}
+
+var tbl = [4]int8{1, -2, 3, 0}
+
+func Tbl(i uint8) int { return int(tbl[i&3])*10 + int(tbl[i]) }
+
+var scale = 3
+
+// package-level variables read inside a loop
+func TblLoop(n uint8) int {
+	s := 0
+	for i := uint8(0); i < n; i++ {
+		s += int(tbl[i]) * scale
+	}
+	return s
+}
+
+func inner(b []byte) (int, error) {
+	x := b[0]
+	if x > 200 {
+		return 0, fmt.Errorf("big first byte %d", x)
+	}
+	return int(x), nil
+}
+
+func ErrWrap(b []byte) (int, error) {
+	if len(b) == 0 {
+		return 0, errors.New("empty")
+	}
+	v, err := inner(b)
+	if err != nil {
+		return v, fmt.Errorf("wrap: %s", err.Error())
+	}
+	if v > 100 {
+		return v, fmt.Errorf("%s: %d", fmt.Sprintf("big %d", v), v)
+	}
+	return v, nil
+}
+
+func ErrNilDeref(a int) error {
+	var err error
+	if a > 0 {
+		err = errors.New("x")
+	}
+	return fmt.Errorf("w %s", err.Error())
+}
+
+// an abstract object: the methods of the interface value are given to the generated definition
+type Src interface {
+	Get(n int) ([]byte, error)
+	Pos() int
+}
+
+func SumSrc(s Src, k int) (int, bool) {
+	total := 0
+	for i := 0; i < k; i++ {
+		b, err := s.Get(2)
+		if err != nil {
+			return total, false
+		}
+		total += int(b[0])*256 + int(b[1])
+	}
+	return total + s.Pos(), true
+}
+
+func SumSrcTwice(s Src, unused fmt.Stringer, k int) (int, bool) {
+	a, ok := SumSrc(s, k)
+	if !ok {
+		return a, false
+	}
+	b, ok := SumSrc(s, 1)
+	return a*1000 + b, ok
+}
+
+// a generic struct of abstract objects as receiver; recursion with a depth budget
+type Tpl[T Src] struct{ R T }
+
+func (p Tpl[T]) Count(maxdepth int) (int, bool) {
+	if maxdepth == 0 {
+		return 0, false
+	}
+	b, err := p.R.Get(1)
+	if err != nil {
+		return 0, false
+	}
+	n := int(b[0])
+	if n >= 4 {
+		return 1, true
+	}
+	cnt := 1
+	for i := 0; i < n; i++ {
+		c, ok := p.Count(maxdepth - 1)
+		if !ok {
+			return cnt, false
+		}
+		cnt += c
+	}
+	return cnt + p.R.Pos()*0, true
+}
+
+// ---------------------------------------------------------------------------------------------
+// forward goto to labels of the outermost block; a pointer receiver to a struct with fields;
+// a value of a struct type without fields; an external function
+
+func GotoFwd(a int) (r int, ok bool) {
+	if a > 0 {
+		goto pos
+	}
+	if a < -5 {
+		goto neg
+	}
+	r = 1
+	return
+pos:
+	r = a * 2
+	ok = true
+neg:
+	r -= 100
+	return r, ok
+}
+
+func GotoLoop(b []byte) (n int, code int) {
+	for i := 0; i < len(b); i++ {
+		for j := 0; j < int(b[i]); j++ {
+			if j == 3 {
+				goto three
+			}
+			n++
+		}
+		if b[i] == 9 {
+			goto nine
+		}
+	}
+	return n, 0
+three:
+	return n, 3
+nine:
+	code = 9
+	return
+}
+
+type Empty struct{}
+
+func (Empty) Double(a int) int { return 2 * a }
+
+type Rec struct {
+	A int
+	S string
+	M map[string]int
+}
+
+func (p *Rec) Fill(b []byte) (n int, ok bool) {
+	x := Empty{}
+	var y Empty
+	for i := 0; i < len(b); i++ {
+		if b[i] == 0 {
+			goto bad
+		}
+		p.A += x.Double(int(b[i])) + y.Double(1)
+		if b[i] > 100 {
+			p.M = make(map[string]int, int(b[i])-200) // a negative hint at run time
+		}
+		if b[i] == 7 {
+			p.M["seven"] = p.A
+			p.S = p.S + "7"
+		}
+		p.A++
+		n++
+	}
+	return n, true
+bad:
+	return n, false
+}
+
+func UseExt(b []byte, k int) (int, bool) {
+	v, err := ext.Calc(b[1:], k)
+	if err != nil {
+		return v, false
+	}
+	for i := 0; i < 2; i++ {
+		w, err := ext.Calc(b, v)
+		if err != nil {
+			return w, false
+		}
+		v = w
+	}
+	return v, true
 }
